@@ -9,13 +9,20 @@ def add(pid, text, note, technique, category="proof", design=None):
                        design=design or ("DESIGN.md section 4, " + pid))
 
 add("C14",
-    "Coq theorems over the VersionNum model (next = number+1 with the same width, refusal past the width's maximum, "
-    "display/parse round trip, constant name length) for all version numbers outside the recorded overflow class; "
-    "the model is tied to the code by a differential run of the real VersionNum (debug build) on boundary and random "
-    "inputs evaluated inside Coq, plus a model-free oracle of the property on the same outputs.",
-    "Trusted: Coq kernel, the hand-written model Model/VersionNum.v, harness and driver. The theorems are about the "
-    "model; the correspondence is differential testing. Known finding: u32 overflow for widths > 10 / number u32::MAX.",
-    "machine-checked proof in Coq (induction/arith) + model-vs-code correspondence evaluated by vm_compute")
+    "Coq theorems (i) over the VersionNum model: next = number+1 with the same width, refusal past the width's maximum, display/parse round "
+    "trip, constant name length, outside the recorded overflow class; (ii) over a multi-client model (Model/MultiClient.v: one main "
+    "repository, any number of clients with private staging, objects with a lineage token; New / Stage / Commit / ResetAll / Purge as the "
+    "code: write_new_object refuses an existing id, write_new_version compares head numbers), for ALL interleavings of any number of "
+    "clients and objects: a successful commit appends exactly the next version (state = staged state, earlier versions unchanged), per "
+    "lineage the version list only grows by push-back, a stale commit is refused and changes nothing (staged changes kept), no silent "
+    "merge, staging is refused at the width's maximum; all outside the exact known class `recreated lineage` (witness inside). "
+    "Correspondence: VersionNum differential (debug build); 2 and 3 real clients (library handles and CLI with distinct -s directories) "
+    "over exhaustive interleavings of 2 clients x <= 2 operations, sampled longer ones, scenarios with purge + re-create, widths 0/1/2/3/11: "
+    "result class, main state and all staged inventories compared inside Coq after every step; model-free oracle (changed version "
+    "directory, skipped/repeated number, commit accepted on a stale base, refused commit changed something, object invalid).",
+    "Trusted: Coq kernel, Model/VersionNum.v, Model/MultiClient.v, harness and driver. Known findings: vnum-overflow (widths > 10, u32::MAX), "
+    "recreated-lineage.",
+    "machine-checked proof in Coq (arith + invariant over all interleavings) + exhaustive/sampled interleavings of real clients")
 
 
 add("C01",
@@ -196,6 +203,54 @@ add("C12",
     "commit changes nothing.",
     "Hypotheses as C03. Symlinks planted by a third party are out of scope. Known finding: external mv whose named source lies inside the repository.",
     "machine-checked proof in Coq (containment algebra, guard lemmas, footprint of all operations) + system-call trace correspondence")
+
+
+add("C06",
+    "Coq theorems over an abstract stored object (Model/ObjTree.v: tree of directories, files with abstract content tokens, symlinks; "
+    "inventories, sidecars and declarations through abstract parse functions) and a transcription of validate_object's rules "
+    "(Model/TreeValidate.v): what rocfl writes validates without error; for EVERY tree written by rocfl and EVERY single corruption of the 16 "
+    "kinds the property lists (content change/truncate/extend, delete, add, rename, swap, symlink, empty-directory replacement of a file or "
+    "directory, any change of a root/head/old-version inventory, sidecar digest, declaration deleted/altered, stray file, version directory "
+    "removed) outside the two recorded known classes, validation with fixity reports an error, and structural corruptions also with fixity "
+    "off - the only assumption is injectivity of the digest function. Witness lemmas inside the known classes. Correspondence: objects "
+    "written by the real library through histories are abstracted to model trees (written_by_rocfl checked as a boolean), each corruption "
+    "applied in the model and to a scratch copy, model verdict = verdict of the real CLI (exit status 2, with and without fixity, by id, by "
+    "path, repository-wide). Search: exit status != 2 or no error line for a corruption outside the known classes.",
+    "Trusted: Coq kernel, Model/ObjTree.v, TreeValidate.v, Corrupt.v, the abstraction in vplib/corruptlib.py, digest collision freedom. "
+    "Known findings (spec-conformant, W010): contentless-version-dir, version-inventory-dropped. A validator panic in uriparse caused by an "
+    "inserted byte is C17's known finding uri-colon-segment and is counted there.",
+    "machine-checked proof in Coq (all trees x all corruption kinds, digest injectivity) + corruption enumeration against the real CLI")
+
+
+add("C04",
+    "Coq theorems over an executable model of the commit protocol (Model/FsTree.v: abstract file tree with the OS refusals; Model/Commit.v: "
+    "commit_inner, write_new_object, write_new_version incl. the rollback that restores the root inventory pair, copy_inventory_files, "
+    "stage_inventory, rm_staged_files, rm_orphaned_files, purge, clean_dirs_up, lock file, as monadic programs with a fault oracle over "
+    "every mutating call and a stop oracle): for every tree satisfying commit_pre and EVERY single fault position (or none) the main object "
+    "is afterwards the old one or the one of the fault-free run, success is reported only for the new one, and while the version directory "
+    "is not installed the object is old and all staged content is still staged; same for a stop request at every position (existing "
+    "objects). Theorems assume a commit that does not change the inventory type; upgrade_object (all variants), the stop request on a first "
+    "version, retry-succeeds / reset-succeeds and validity of the fault-free result are decided by the correspondence only. "
+    "Correspondence: real CLI under strace - the fault-free trace equals the model's step log; then EVERY mutating call of every scenario "
+    "(new object, new version, dedup + orphans, delete-only, nested, upgrades; layouts 0004/0002; default/external staging) is failed once "
+    "(EIO/ENOSPC/EACCES rotated; all three in the thorough tier) and hit once by SIGINT; outcome class and exit status match the model; "
+    "then retry and, in a second copy, reset are run and the results validated with the independent validator and rocfl validate.",
+    "Trusted: Coq kernel, Model/FsTree.v + Model/Commit.v, strace, the tree abstraction in vplib/commitlib.py, vplib/ocflv.py. A fault inside a "
+    "partially completed write is modelled as truncate + partial file. Known findings: upgrade-declaration-fault, staged-declaration-fault, "
+    "cleanup-rmdir-fault.",
+    "machine-checked proof in Coq (all fault / stop positions of the commit programs) + single-fault enumeration of the real commit under strace")
+
+add("C05",
+    "Coq theorem C05_kill_safe over the same commit model: for every tree satisfying commit_pre (a decidable predicate, proved sound, "
+    "evaluated on the abstraction of every real scenario) and EVERY kill position: every earlier version directory is unchanged, every "
+    "content file of the new version is complete in the staged object or in the main object, and the main object is old, new, or rejected "
+    "by the structural validator obj_validb (unknown version directory, sidecar/inventory mismatch, partial inventory, head copy differs). "
+    "Correspondence: SIGKILL injected at every mutating call of every scenario and at sampled write calls inside inventory, sidecar and "
+    "declaration files; the three clauses are evaluated on the real trees, invalid states must be rejected by BOTH the independent "
+    "validator and rocfl validate; outcome classes match the model at every aligned position.",
+    "Process-kill model (calls already made are durable and ordered) is the property's stated model and is assumed. Type-changing commits "
+    "(upgrade) are correspondence-checked only.",
+    "machine-checked proof in Coq (all kill positions) + kill enumeration of the real commit under strace")
 
 NOT_APPLICABLE = []  # filled below for every property without a check yet
 
